@@ -266,6 +266,28 @@ Remainder(f, x, y) ==
          THEN Normalize(f, 1 - x.s, LimbSub(f, sy, dr.r), EffExp(y))
          ELSE Normalize(f, x.s, dr.r, EffExp(y))
 
+(* ------------------------------- small integers <-> floats (complex self-operations) ------------------------------- *)
+\* |x| is an integer below 2^11 (or zero): then products and sums of two such values are exact in every format here
+IsSmallInt(f, x) == IsZero(x) \/ (IsFinite(f, x) /\ x.e >= f.bias /\ x.e - f.bias <= 10 /\ IsInteger(f, x))
+SmallIntVal(f, x) ==       \* the integer value of such an x
+    IF IsZero(x) THEN 0
+    ELSE LET fb == FracBits(f, x) sg == Sig(f, x)
+             n == IF fb >= f.W THEN sg.h \div Pow2(fb - f.W) ELSE sg.h * Pow2(f.W - fb) + sg.l \div Pow2(fb)
+         IN IF x.s = 1 THEN -n ELSE n
+\* the float with integer value n, |n| < 2^23 (a zero result is +0)
+FromSmallInt(f, n) ==
+    LET a == Abs(n) IN
+    Normalize(f, IF n < 0 THEN 1 ELSE 0, [h |-> a \div Pow2(f.W), l |-> a % Pow2(f.W)], f.bias + f.P)
+\* z op z for z = a + bi with small-integer components:  2z,  0,  z*z = (a*a - b*b) + 2ab i,  z/z = 1
+ComplexSelf(f, op, a, b) ==
+    LET x == SmallIntVal(f, a) y == SmallIntVal(f, b) IN
+    CASE op = "add" -> <<FromSmallInt(f, 2 * x), FromSmallInt(f, 2 * y)>>
+      [] op = "sub" -> <<Zero(0), Zero(0)>>
+      [] op = "mul" -> <<FromSmallInt(f, x * x - y * y), FromSmallInt(f, 2 * x * y)>>
+      [] op = "div" -> <<One(f, 0), Zero(0)>>
+\* numeric equality of a result with the exact value (the sign of a zero component is not compared)
+NumSame(f, r, v) == ~IsNaN(f, r) /\ NumEq(r, v)
+
 (* ---------------------------------------- dispatch of the exact set ---------------------------------------- *)
 ExactUnaryFp == {"floor", "ceil", "trunc", "round", "rint", "nearbyint", "fabs", "abs"}
 ExactUnaryLong == {"lrint", "llrint", "lround", "llround"}
@@ -311,6 +333,129 @@ BinaryExpected(f, fn, x, y) ==
       [] fn = "fmod" -> FMod(f, x, y) [] fn = "remainder" -> Remainder(f, x, y)
       [] fn = "fmin" -> (IF IsNaN(f, x) THEN y ELSE IF IsNaN(f, y) THEN x ELSE IF Lt(y, x) THEN y ELSE x)
       [] fn = "fmax" -> (IF IsNaN(f, x) THEN y ELSE IF IsNaN(f, y) THEN x ELSE IF Lt(x, y) THEN y ELSE x)
+
+(* ------------------------- formats with more than two limbs: x87 extended precision ------------------------- *)
+\* The 64-bit significand of the x87 format does not fit two limbs of at most 30 bits, so long double values carry the
+\* 63 FRACTION bits in n = 3 limbs of L = 21 bits, most significant first:  [s, e, m = <<m1, m2, m3>>].  The explicit
+\* integer bit j of the format is 1 exactly when e # 0 (canonical encodings: the only ones the hardware produces); the
+\* trace specification checks j separately, here it plays the role of the hidden bit.  Only the operations of the
+\* EXACT set that need no arithmetic on significands are defined: classification, order, rounding to integer,
+\* copysign / fabs / signbit, fmin / fmax, nextafter.  Toy3 is a 1+4+6 bit format with the same limb structure that
+\* TLC enumerates completely (Float.tla, Mode "toy3").
+F80 == [P |-> 63, L |-> 21, n |-> 3, bias |-> 16383, emax |-> 32767]
+Toy3 == [P |-> 6, L |-> 2, n |-> 3, bias |-> 7, emax |-> 15]
+
+NV(s, e, m) == [s |-> s, e |-> e, m |-> m]
+NZeros(f) == [k \in 1..f.n |-> 0]
+NOnes(f) == [k \in 1..f.n |-> Pow2(f.L) - 1]
+NMZero(x) == \A k \in 1..Len(x.m) : x.m[k] = 0
+NIsNaN(f, x) == x.e = f.emax /\ ~NMZero(x)
+NIsSNaN(f, x) == NIsNaN(f, x) /\ x.m[1] < Pow2(f.L - 1)
+NIsInf(f, x) == x.e = f.emax /\ NMZero(x)
+NIsZero(x) == x.e = 0 /\ NMZero(x)
+NIsSubnormal(x) == x.e = 0 /\ ~NMZero(x)
+NIsFinite(f, x) == x.e < f.emax
+NIsNormal(f, x) == 0 < x.e /\ x.e < f.emax
+NFpClass(f, x) == IF NIsNaN(f, x) THEN 0 ELSE IF NIsInf(f, x) THEN 1 ELSE IF NIsZero(x) THEN 2 ELSE IF NIsSubnormal(x) THEN 3 ELSE 4
+NZero(f, s) == NV(s, 0, NZeros(f))
+NOne(f, s) == NV(s, f.bias, NZeros(f))
+NInf(f, s) == NV(s, f.emax, NZeros(f))
+NQNaN(f) == NV(0, f.emax, [k \in 1..f.n |-> IF k = 1 THEN Pow2(f.L - 1) ELSE 0])
+NWellFormed(f, x) == x.s \in {0, 1} /\ x.e \in 0..f.emax /\ Len(x.m) = f.n /\ \A k \in 1..f.n : x.m[k] \in 0..(Pow2(f.L) - 1)
+NSame(f, a, b) == IF NIsNaN(f, a) \/ NIsNaN(f, b) THEN NIsNaN(f, a) /\ NIsNaN(f, b) ELSE a = b
+
+RECURSIVE SeqLt(_, _, _)
+SeqLt(a, b, k) == IF k > Len(a) THEN FALSE ELSE IF a[k] < b[k] THEN TRUE ELSE IF a[k] > b[k] THEN FALSE ELSE SeqLt(a, b, k + 1)
+NMagLt(x, y) == x.e < y.e \/ (x.e = y.e /\ SeqLt(x.m, y.m, 1))
+NLt(x, y) == IF NIsZero(x) /\ NIsZero(y) THEN FALSE
+             ELSE IF x.s # y.s THEN x.s = 1
+             ELSE IF x.s = 0 THEN NMagLt(x, y) ELSE NMagLt(y, x)
+NNumEq(x, y) == (NIsZero(x) /\ NIsZero(y)) \/ x = y
+NLe(x, y) == NLt(x, y) \/ NNumEq(x, y)
+
+\* limb k holds the fraction bits  LoBit(k) .. LoBit(k)+L-1  (bit 0 = least significant)
+LoBit(f, k) == (f.n - k) * f.L
+FracCnt(f, k, fb) == LET c == fb - LoBit(f, k) IN IF c < 0 THEN 0 ELSE IF c > f.L THEN f.L ELSE c   \* fraction bits inside limb k
+NFrac(f, x, fb) == [k \in 1..f.n |-> x.m[k] % Pow2(FracCnt(f, k, fb))]
+NHalf(f, fb) == [k \in 1..f.n |-> IF LoBit(f, k) <= fb - 1 /\ fb - 1 < LoBit(f, k) + f.L THEN Pow2(fb - 1 - LoBit(f, k)) ELSE 0]
+NCmpHalf(f, x, fb) == LET fr == NFrac(f, x, fb) hf == NHalf(f, fb) IN IF SeqLt(fr, hf, 1) THEN -1 ELSE IF fr = hf THEN 0 ELSE 1
+NFracNonZero(f, x, fb) == \E k \in 1..f.n : NFrac(f, x, fb)[k] # 0
+NTruncMag(f, x, fb) == [x EXCEPT !.m = [k \in 1..f.n |-> x.m[k] - NFrac(f, x, fb)[k]]]
+NIntOdd(f, x, fb) == IF fb = f.P THEN TRUE ELSE (x.m[f.n - (fb \div f.L)] \div Pow2(fb % f.L)) % 2 = 1
+\* add v (a power of two below 2^L, or a carry) to limb k, carries run towards limb 1; c = carry out of limb 1
+RECURSIVE NAdd(_, _, _, _)
+NAdd(f, m, k, v) ==
+    IF k = 0 THEN [m |-> m, c |-> 1]
+    ELSE LET t == m[k] + v IN
+         IF t >= Pow2(f.L) THEN NAdd(f, [m EXCEPT ![k] = t - Pow2(f.L)], k - 1, 1) ELSE [m |-> [m EXCEPT ![k] = t], c |-> 0]
+NIncMag(f, t, fb) ==
+    IF fb = f.P THEN NV(t.s, t.e + 1, NZeros(f))
+    ELSE LET r == NAdd(f, t.m, f.n - (fb \div f.L), Pow2(fb % f.L)) IN
+         IF r.c = 1 THEN NV(t.s, t.e + 1, NZeros(f)) ELSE NV(t.s, t.e, r.m)
+
+NRoundInt(f, x, mode) ==
+    IF NIsNaN(f, x) THEN NQNaN(f)
+    ELSE IF x.e = f.emax \/ NIsZero(x) \/ x.e - f.bias >= f.P THEN x
+    ELSE IF x.e < f.bias THEN
+        LET up == CASE mode = "zero" -> FALSE
+                    [] mode = "down" -> x.s = 1
+                    [] mode = "up" -> x.s = 0
+                    [] mode = "away" -> x.e = f.bias - 1
+                    [] mode = "even" -> x.e = f.bias - 1 /\ ~NMZero(x)
+        IN IF up THEN NOne(f, x.s) ELSE NZero(f, x.s)
+    ELSE
+        LET fb == f.P - (x.e - f.bias)
+            t == NTruncMag(f, x, fb)
+            c == NCmpHalf(f, x, fb)
+            up == CASE mode = "zero" -> FALSE
+                    [] mode = "down" -> x.s = 1 /\ NFracNonZero(f, x, fb)
+                    [] mode = "up" -> x.s = 0 /\ NFracNonZero(f, x, fb)
+                    [] mode = "away" -> c >= 0
+                    [] mode = "even" -> c > 0 \/ (c = 0 /\ NIntOdd(f, x, fb))
+        IN IF up THEN NIncMag(f, t, fb) ELSE t
+
+NMagSucc(f, x) == LET r == NAdd(f, x.m, f.n, 1) IN IF r.c = 1 THEN NV(x.s, x.e + 1, NZeros(f)) ELSE [x EXCEPT !.m = r.m]
+RECURSIVE NSub1(_, _, _)
+NSub1(f, m, k) == IF m[k] > 0 THEN [m EXCEPT ![k] = m[k] - 1] ELSE NSub1(f, [m EXCEPT ![k] = Pow2(f.L) - 1], k - 1)   \* m # 0
+NMagPred(f, x) == IF NMZero(x) THEN NV(x.s, x.e - 1, NOnes(f)) ELSE [x EXCEPT !.m = NSub1(f, x.m, f.n)]           \* x # 0
+NNextAfter(f, x, y) ==
+    IF NIsNaN(f, x) \/ NIsNaN(f, y) THEN NQNaN(f)
+    ELSE IF NNumEq(x, y) THEN y
+    ELSE IF NIsZero(x) THEN NV(y.s, 0, [k \in 1..f.n |-> IF k = f.n THEN 1 ELSE 0])
+    ELSE IF NLt(x, y) = (x.s = 0) THEN NMagSucc(f, x) ELSE NMagPred(f, x)
+
+NFMaxOK(f, x, y, r) ==
+    IF NIsNaN(f, x) /\ NIsNaN(f, y) THEN NIsNaN(f, r)
+    ELSE IF (NIsSNaN(f, x) \/ NIsSNaN(f, y)) /\ NIsNaN(f, r) THEN TRUE
+    ELSE IF NIsNaN(f, x) THEN r = y
+    ELSE IF NIsNaN(f, y) THEN r = x
+    ELSE IF NIsZero(x) /\ NIsZero(y) THEN r \in {x, y}
+    ELSE r = (IF NLt(x, y) THEN y ELSE x)
+NFMinOK(f, x, y, r) ==
+    IF NIsNaN(f, x) /\ NIsNaN(f, y) THEN NIsNaN(f, r)
+    ELSE IF (NIsSNaN(f, x) \/ NIsSNaN(f, y)) /\ NIsNaN(f, r) THEN TRUE
+    ELSE IF NIsNaN(f, x) THEN r = y
+    ELSE IF NIsNaN(f, y) THEN r = x
+    ELSE IF NIsZero(x) /\ NIsZero(y) THEN r \in {x, y}
+    ELSE r = (IF NLt(y, x) THEN y ELSE x)
+
+NUnaryFp(f, fn, x) ==
+    CASE fn = "floor" -> NRoundInt(f, x, "down") [] fn = "ceil" -> NRoundInt(f, x, "up") [] fn = "trunc" -> NRoundInt(f, x, "zero")
+      [] fn = "round" -> NRoundInt(f, x, "away") [] fn \in {"rint", "nearbyint"} -> NRoundInt(f, x, "even")
+      [] fn \in {"fabs", "abs"} -> (IF NIsNaN(f, x) THEN NQNaN(f) ELSE [x EXCEPT !.s = 0])
+NUnaryInt(f, fn, x) ==
+    CASE fn = "signbit" -> x.s [] fn = "isnan" -> B2I(NIsNaN(f, x)) [] fn = "isinf" -> B2I(NIsInf(f, x))
+      [] fn = "isfinite" -> B2I(NIsFinite(f, x)) [] fn = "isnormal" -> B2I(NIsNormal(f, x)) [] fn = "fpclassify" -> NFpClass(f, x)
+NBinaryOK(f, fn, x, y, r) ==
+    CASE fn = "copysign" -> NSame(f, r, [x EXCEPT !.s = y.s])
+      [] fn = "fmin" -> NFMinOK(f, x, y, r)
+      [] fn = "fmax" -> NFMaxOK(f, x, y, r)
+      [] fn = "nextafter" -> NSame(f, r, NNextAfter(f, x, y))
+NBinaryExpected(f, fn, x, y) ==
+    CASE fn = "copysign" -> [x EXCEPT !.s = y.s]
+      [] fn = "nextafter" -> NNextAfter(f, x, y)
+      [] fn = "fmin" -> (IF NIsNaN(f, x) THEN y ELSE IF NIsNaN(f, y) THEN x ELSE IF NLt(y, x) THEN y ELSE x)
+      [] fn = "fmax" -> (IF NIsNaN(f, x) THEN y ELSE IF NIsNaN(f, y) THEN x ELSE IF NLt(x, y) THEN y ELSE x)
 
 (* ------------------------------- approximate set: Annex F special values ------------------------------- *)
 \* A requirement on the result:  [k |-> "nan"] , [k |-> "val", v |-> exact value] , [k |-> "none"] (no special case:
